@@ -161,6 +161,23 @@ func main() {
 	_ = os.MkdirAll(replayDir, 0755)
 
 	if *replay != "" {
+		if rc, err := props.LoadCase(*replay); err == nil && rc.Engine == "race" {
+			rbin, berr := buildRace(scratch)
+			if rbin == "" {
+				die(2, "HARNESS-ERROR race build failed:\n%s", berr)
+			}
+			// best effort: the schedule is the operating system's; re-run the same workload a few times
+			for try := 0; try < 20; try++ {
+				_, hits, _ := runRace(rbin, scratch, rc.Seed, 1, time.Now().Add(time.Minute), rc.Run, 1)
+				if len(hits) > 0 {
+					fmt.Println(tail(hits[0].report, 3000))
+					fmt.Printf("VIOLATION property=%s replay=%s\n", prop, *replay)
+					exit(1)
+				}
+			}
+			fmt.Println("replay: no data race reported in 20 re-executions (best-effort replay of the free-running arm)")
+			exit(0)
+		}
 		sp := &props.Spec{Mode: "replay", Prop: prop, Tier: *tier, OutDir: scratch, ID: 0, Replay: *replay, StuckS: 20}
 		res, code, out := runWorker(bin, sp, 10*time.Minute)
 		if res == nil {
@@ -334,6 +351,35 @@ func main() {
 	}
 	exploreWall := time.Since(start).Seconds()
 
+	// C03 only: the free-running arm under the race detector
+	raceRuns := 0
+	var raceViol []string
+	if prop == "C03" && os.Getenv("VERIF_NO_RACE_ARM") == "" {
+		rbin, berr := buildRace(scratch)
+		if rbin == "" {
+			harnessTrouble = append(harnessTrouble, "race build failed: "+tail(berr, 800))
+		} else {
+			rb := 20
+			if *tier == "thorough" {
+				rb = bud / 4
+			}
+			runs, hits, tr := runRace(rbin, scratch, uint64(*seedF), *jobs, time.Now().Add(time.Duration(rb)*time.Second), 0, 0)
+			raceRuns = runs
+			harnessTrouble = append(harnessTrouble, tr...)
+			for i, h := range hits {
+				if i > 0 {
+					break
+				}
+				rc := &props.Case{Prop: "C03", Engine: "race", Seed: uint64(*seedF), Run: h.run, Tier: *tier,
+					Violation: &work.Violation{Prop: "C03", Class: "data-race", Msg: "the Go race detector reports a data race inside bbolt (free-running arm)"}, Trace: []string{tail(h.report, 6000)}}
+				dst := filepath.Join(replayDir, fmt.Sprintf("C03-seed%d-data-race-%d.json", *seedF, h.run))
+				_ = props.SaveCase(dst, rc)
+				raceViol = append(raceViol, dst)
+				fmt.Println(tail(h.report, 2500))
+			}
+		}
+	}
+
 	// violations: one representative per class, shrunk and re-validated
 	sort.Slice(agg.Violations, func(i, j int) bool {
 		a, b := agg.Violations[i], agg.Violations[j]
@@ -445,6 +491,7 @@ func main() {
 		}
 		newViol++
 	}
+	newViol += len(raceViol)
 	ids := make([]string, 0, len(knownLines))
 	for id := range knownLines {
 		ids = append(ids, id)
@@ -471,6 +518,10 @@ func main() {
 		"real_vs_stub":         info.RealStub,
 		"violations_of_other_properties_seen_not_reported_here": agg.OtherProps,
 		"known_findings_reported":                               ids,
+	}
+	if prop == "C03" {
+		cov["race_arm_runs"] = raceRuns
+		cov["race_arm"] = "free-running (no scheduler) execution of the same seeded client programs in a -race build; verdict = race detector reports with a bbolt frame on top; replay is best-effort"
 	}
 	if agg.Decisions > 0 {
 		cov["scheduling_decisions"] = agg.Decisions
@@ -508,6 +559,10 @@ func main() {
 			fmt.Printf("VIOLATION property=%s replay=%s\n", prop, vd.path)
 		}
 	}
+	for _, rv := range raceViol {
+		fmt.Printf("violation: C03/data-race: the race detector reports a data race inside bbolt\n")
+		fmt.Printf("VIOLATION property=%s replay=%s\n", prop, rv)
+	}
 	if newViol > 0 {
 		exit(1)
 	}
@@ -521,6 +576,106 @@ func main() {
 		exit(2)
 	}
 	exit(0)
+}
+
+// ---------------------------------------------------------------------------
+// free-running -race arm of C03
+
+func buildRace(scratch string) (string, string) {
+	bin := filepath.Join(scratch, "race.test")
+	cmd := exec.Command("go", "test", "-race", "-c", "-tags", "verif", "-o", bin, "./props")
+	cmd.Dir = verifDir
+	out, err := cmd.CombinedOutput()
+	if err != nil {
+		return "", string(out)
+	}
+	return bin, ""
+}
+
+// raceInBbolt reports whether a race report's two accesses have a bbolt
+// (non-harness) function on top of at least one stack.
+func raceInBbolt(report string) bool {
+	lines := strings.Split(report, "\n")
+	for i, l := range lines {
+		t := strings.TrimSpace(l)
+		if strings.HasPrefix(t, "Write at") || strings.HasPrefix(t, "Read at") || strings.HasPrefix(t, "Previous write at") || strings.HasPrefix(t, "Previous read at") ||
+			strings.HasPrefix(t, "Atomic") || strings.HasPrefix(t, "Previous atomic") {
+			for j := i + 1; j < len(lines) && j < i+8; j++ {
+				f := strings.TrimSpace(lines[j])
+				if f == "" {
+					break
+				}
+				if strings.HasPrefix(f, "go.etcd.io/bbolt") && !strings.HasPrefix(f, "go.etcd.io/bbolt/xverif") {
+					return true
+				}
+				if strings.HasPrefix(f, "/") { // file:line of the previous frame
+					continue
+				}
+				if !strings.HasPrefix(f, "runtime.") && !strings.HasPrefix(f, "sync") {
+					// first non-runtime frame is not bbolt: look at the caller frames too
+					continue
+				}
+			}
+		}
+	}
+	return false
+}
+
+type raceHit struct {
+	run    uint64
+	report string
+}
+
+// runRace runs the race binary over run indices until the deadline.
+func runRace(bin, scratch string, seed uint64, jobs int, deadline time.Time, first uint64, maxRuns int) (runs int, hits []raceHit, trouble []string) {
+	type rr struct {
+		id   int
+		code int
+		out  string
+	}
+	ch := make(chan rr, jobs)
+	for i := 0; i < jobs; i++ {
+		sp := &props.Spec{Mode: "explore", Prop: "C03", Seed: seed, First: first + uint64(i), Stride: uint64(jobs), DeadlineMS: deadline.UnixMilli(), MaxRuns: maxRuns, OutDir: scratch, ID: 500 + i}
+		specPath := filepath.Join(scratch, fmt.Sprintf("rspec-%d.json", sp.ID))
+		b, _ := json.Marshal(sp)
+		_ = os.WriteFile(specPath, b, 0644)
+		go func() {
+			cmd := exec.Command(bin, "-test.run", "^TestRaceArm$", "-test.timeout", "0")
+			cmd.Env = append(os.Environ(), "VERIF_RACE_SPEC="+specPath, "VERIF_DIR="+verifDir, "GORACE=halt_on_error=1 exitcode=66")
+			cmd.Dir = scratch
+			out, err := cmd.CombinedOutput()
+			code := 0
+			if ee, ok := err.(*exec.ExitError); ok {
+				code = ee.ExitCode()
+			} else if err != nil {
+				code = 2
+			}
+			ch <- rr{sp.ID, code, string(out)}
+		}()
+	}
+	for i := 0; i < jobs; i++ {
+		r := <-ch
+		if rb, err := os.ReadFile(filepath.Join(scratch, fmt.Sprintf("race-result-%d.json", r.id))); err == nil {
+			var x struct{ Runs int }
+			_ = json.Unmarshal(rb, &x)
+			runs += x.Runs
+		}
+		switch {
+		case r.code == 66 && strings.Contains(r.out, "DATA RACE"):
+			var run uint64
+			if jb, err := os.ReadFile(filepath.Join(scratch, fmt.Sprintf("race-journal-%d", r.id))); err == nil {
+				fmt.Sscan(string(jb), &run)
+			}
+			if raceInBbolt(r.out) {
+				hits = append(hits, raceHit{run, r.out})
+			} else {
+				trouble = append(trouble, "race report without a bbolt frame on top (harness?): "+tail(r.out, 600))
+			}
+		case r.code != 0:
+			trouble = append(trouble, fmt.Sprintf("race worker exit %d: %s", r.code, tail(r.out, 600)))
+		}
+	}
+	return
 }
 
 func firstPanicLine(s string) string {
